@@ -15,6 +15,9 @@ TEMPLATES = {
     'crlf': 'ab?\r\ncd ?f\r\n',                             # CRLF line endings
     'ansi': '\x1b[31mre?\x1b[0m gr?en \x1b]8;;u\x07l?nk\x1b]8;;\x07 x',   # CSI and OSC sequences
     'short': 'a b?c de-f g',
+    # word force-broken into >= 2 pieces with a symbolic character in the LAST piece, then a word that fits exactly
+    # (only where named explicitly: C14)
+    'lastpiece': 'aaaa?aaa?a bb c',
 }
 
 
@@ -74,7 +77,7 @@ def std_tmpl_spaces(base, q, variants=True, names=None, cind=False, **kw):
             for ci in cinds:
                 out += tmpl_spaces(dict(base, cind=ci, ind='none'), ['paras'], **kw)
         return out
-    names = names or [n for n in TEMPLATES if n != 'short']
+    names = names or [n for n in TEMPLATES if n not in ('short', 'lastpiece')]
     out = tmpl_spaces(base, names, **kw)
     multi = [n for n in names if n in ('sentence', 'paras', 'hyphens', 'wide')]
     if variants:
